@@ -61,13 +61,15 @@ def main():
         })
     m = {
         "version": 1,
-        "setup_cmd": "/venv/bin/python -c 'import hypothesis' 2>/dev/null || /venv/bin/pip install --no-index --find-links /opt/veriftools/wheels hypothesis",
+        "setup_cmd": "(/venv/bin/python -c 'import hypothesis' 2>/dev/null || /venv/bin/pip install --no-index --find-links /opt/veriftools/wheels hypothesis) && (test -d .deps/atheris || /venv/bin/pip install --quiet --no-index --find-links /opt/veriftools/wheels --target .deps atheris || true)",
         "hooks": {"guard": "J1939_VERIF",
                   "enable": "none - no source hooks: the harness rebinds time/threading/queue in the j1939 modules at run time (vlib/simkernel.install)",
                   "baseline_off_cmd": "cd /repo && /venv/bin/python -m pytest -ra -q -p no:cacheprovider --timeout=900 --continue-on-collection-errors",
                   "source_commits": [], "add_only": True},
         "engines": [{"name": "pbt-sim", "path": "check.py", "serves_properties": sorted(BUILT),
-                     "kind_free_text": "Hypothesis-generated scenarios (and complete enumerations of finite parts) executed on the real stack under a deterministic virtual-time kernel (vlib/), explicit oracle per property"}],
+                     "kind_free_text": "Hypothesis-generated scenarios (and complete enumerations of finite parts) executed on the real stack under a deterministic virtual-time kernel (vlib/), explicit oracle per property"},
+                    {"name": "atheris-c07", "path": "tools/fuzz_c07.py", "serves_properties": ["C07"],
+                     "kind_free_text": "coverage-guided fuzzing (atheris/libFuzzer, package j1939 instrumented) of the C07 property function through hypothesis.fuzz_one_input; second engine inside check.py C07 (8x250 executions quick, 16x20000 thorough); skipped with a note in the evidence if atheris is not installed"}],
         "checks": checks,
         "notes": "See DESIGN.md. known_findings.json lists genuine defects (fixed ones with their fix commit); corpus/<ID>/ holds regression scenarios replayed first in every quick run; seeded/ holds confirmed property-breaking changes used for sensitivity.",
         "not_applicable": [{"property_id": p["id"], "reason": "check under construction (not yet registered); the technique applies, see DESIGN.md section 5"}
